@@ -426,8 +426,38 @@ fn gen_repo_mutant(t: &mut Tape) -> Option<Value> {
   let idx: Vec<usize> = (body_start..toks.len()).filter(|i| !toks[*i].is_comment()).collect();
   let mut text2 = text.clone();
   let mut op = "";
+  // AST-guided: replace the text of one expression (incl. whole lambda bodies, call arguments, branches)
+  // by a literal; the checker decides whether the mutant is accepted
+  if t.bool(1, 2)
+    && let Ok(p) = crate::model::front::parse(text, &["tests", &name[1]])
+    && p.syntax_errors.is_empty()
+  {
+    let nodes = crate::model::astwalk::walk_module(&p.heap, &p.module);
+    let exprs: Vec<&crate::model::astwalk::Node> = nodes.iter().filter(|n| matches!(n.kind, "literal" | "local" | "call" | "binary" | "field-access" | "lambda" | "if" | "match" | "unary" | "tuple" | "classid")).collect();
+    let offs = super::c14::line_offsets(text);
+    if !exprs.is_empty() {
+      let n = exprs[t.choose(exprs.len())];
+      // lambdas: replace the body only (keeps the parameter list, exercises hint-based checking)
+      let target = if n.kind == "lambda" {
+        let idx = nodes.iter().position(|x| std::ptr::eq(x, n)).unwrap();
+        nodes.iter().enumerate().filter(|(_, c)| c.parent == Some(idx) && c.kind != "lambda-params").map(|(_, c)| c).next_back().unwrap_or(n)
+      } else {
+        n
+      };
+      let s0 = offs[target.loc.start.0 as usize] + target.loc.start.1 as usize;
+      let e0 = offs[target.loc.end.0 as usize] + target.loc.end.1 as usize;
+      if s0 < e0 && e0 <= text.len() && text.is_char_boundary(s0) && text.is_char_boundary(e0) {
+        let lit = ["\"mut\"", "7", "true", "{  }", "(1, \"m\")"][t.choose(5)];
+        text2.replace_range(s0..e0, lit);
+        op = if n.kind == "lambda" { "lambda-body->literal" } else { "expr->literal" };
+      }
+    }
+  }
   let lowers: Vec<&str> = toks.iter().filter(|k| k.kind == Kind::Lower).map(|k| k.text.as_str()).collect();
   for _attempt in 0..8 {
+    if !op.is_empty() {
+      break;
+    }
     let i = idx[t.choose(idx.len())];
     let k = &toks[i];
     let (s, e) = (k.off, k.off + k.text.len());
